@@ -34,6 +34,43 @@ def getters_in(fn, e, prefix):
     return {c for c in calls if c.startswith(prefix + "::get")}
 
 
+def rule_reported_length(fb, res, rid="C04-R6"):
+    """Payload(type, data, size) gives its buffer exactly `size` bytes on every path (also for payloads kept as invalid)."""
+    # ---- R6 reported length is the wire length, also for payloads that are kept as "invalid"
+    for base in ("ASAM::CMP::Payload", "TECMP::Payload"):
+        ctors = [f for f in fb.fns(base + "::Payload") if len(f.params) == 3 and f.params[1]["t"].get("k") == "ptr"]
+        for ctor3 in ctors:
+            sizep = ctor3.params[2]["decl"]
+            bufq, bufn = None, None
+            for fld in fb.record(base)["fields"]:
+                if fld["t"]["s"].startswith("std::vector<unsigned char"):
+                    bufq, bufn = fld["qname"], fld["name"]
+            sized_by_init = False
+            for i in ctor3.raw.get("inits", []) or []:
+                if i.get("field") == bufq and isinstance(i.get("e"), dict):
+                    a = (i["e"].get("args") or [])
+                    sized_by_init = bool(a) and strip_all_casts(a[0]).get("decl") == sizep
+                elif i.get("delegating") and isinstance(i.get("e"), dict):
+                    g = fb.resolve_call(i["e"])
+                    dargs = facts.effective_call(i["e"]).get("args", []) if g is not None else []
+                    for j in (g.raw.get("inits", []) if g is not None else []) or []:
+                        if j.get("field") == bufq and isinstance(j.get("e"), dict) and (j["e"].get("args") or []):
+                            src0 = strip_all_casts(j["e"]["args"][0])
+                            gpd = [q["decl"] for q in g.params]
+                            if src0.get("decl") in gpd and gpd.index(src0["decl"]) < len(dargs):
+                                sized_by_init = strip_all_casts(dargs[gpd.index(src0["decl"])]).get("decl") == sizep
+            every = sized_by_init
+            if not sized_by_init and ctor3.cfg_raw:
+                sets = {c["id"] for fld2, kind, c, ln in facts.vector_sizing(ctor3, bufq) if kind == "set" and ln is not None and
+                        strip_all_casts(facts.expand(ctor3, ln)).get("decl") == sizep}
+                allp = paths.enumerate_paths(ctor3)
+                every = bool(sets) and all(any(x["id"] in sets for x in q.calls()) for q in allp)
+            res.check(every, rid, "%s(type,data,size):length" % base.replace("ASAM::CMP::", ""), ctor3.loc,
+                      "the payload buffer holds exactly `size` bytes on every path (also when the bytes are not kept)",
+                      "%s(type, data, size) leaves the buffer shorter than `size` on some path: getLength() then differs from the wire length, and the "
+                      "decoder's stride (payload length + 16) walks into the middle of the message" % base)
+
+
 def run(ctx):
     fb = ctx.fb()
     res = Result("C04")
@@ -322,39 +359,52 @@ def run(ctx):
                     return False
                 ok = all(tests_mask(atoms) for atoms in implied_atoms(val))
                 res.check(ok, "C04-R3", "error-bits:Ethernet", val.loc, "validator requires (getFlags() & 0x%X) == 0" % mask, "Ethernet validator does not test exactly the error bits 0x%X" % mask)
-    # ---- R6 reported length is the wire length, also for payloads that are kept as "invalid"
-    for base in ("ASAM::CMP::Payload", "TECMP::Payload"):
-        ctors = [f for f in fb.fns(base + "::Payload") if len(f.params) == 3 and f.params[1]["t"].get("k") == "ptr"]
-        for ctor3 in ctors:
-            sizep = ctor3.params[2]["decl"]
-            bufq, bufn = None, None
-            for fld in fb.record(base)["fields"]:
-                if fld["t"]["s"].startswith("std::vector<unsigned char"):
-                    bufq, bufn = fld["qname"], fld["name"]
-            sized_by_init = False
-            for i in ctor3.raw.get("inits", []) or []:
-                if i.get("field") == bufq and isinstance(i.get("e"), dict):
-                    a = (i["e"].get("args") or [])
-                    sized_by_init = bool(a) and strip_all_casts(a[0]).get("decl") == sizep
-                elif i.get("delegating") and isinstance(i.get("e"), dict):
-                    g = fb.resolve_call(i["e"])
-                    dargs = facts.effective_call(i["e"]).get("args", []) if g is not None else []
-                    for j in (g.raw.get("inits", []) if g is not None else []) or []:
-                        if j.get("field") == bufq and isinstance(j.get("e"), dict) and (j["e"].get("args") or []):
-                            src0 = strip_all_casts(j["e"]["args"][0])
-                            gpd = [q["decl"] for q in g.params]
-                            if src0.get("decl") in gpd and gpd.index(src0["decl"]) < len(dargs):
-                                sized_by_init = strip_all_casts(dargs[gpd.index(src0["decl"])]).get("decl") == sizep
-            every = sized_by_init
-            if not sized_by_init and ctor3.cfg_raw:
-                sets = {c["id"] for fld2, kind, c, ln in facts.vector_sizing(ctor3, bufq) if kind == "set" and ln is not None and
-                        strip_all_casts(facts.expand(ctor3, ln)).get("decl") == sizep}
-                allp = paths.enumerate_paths(ctor3)
-                every = bool(sets) and all(any(x["id"] in sets for x in q.calls()) for q in allp)
-            res.check(every, "C04-R6", "%s(type,data,size):length" % base.replace("ASAM::CMP::", ""), ctor3.loc,
-                      "the payload buffer holds exactly `size` bytes on every path (also when the bytes are not kept)",
-                      "%s(type, data, size) leaves the buffer shorter than `size` on some path: getLength() then differs from the wire length, and the "
-                      "decoder's stride (payload length + 16) walks into the middle of the message" % base)
+    # closed world of invalidity: what a payload validator may hold against a payload.  Frozen from the property: inner lengths that do not fit
+    # (every kind), bus-error flags (CAN, CAN-FD, Ethernet only), an undefined sample type (analog), an undefined interface status (interface
+    # status).  A validator that looks at any other header field turns well-formed payloads into invalid ones.
+    ALLOWED = {"CanPayload": {"hasError", "getDataLength"}, "CanFdPayload": {"hasError", "getDataLength"}, "LinPayload": {"getDataLength"},
+               "EthernetPayload": {"getFlags", "hasError", "getDataLength"}, "AnalogPayload": {"getSampleDt"}, "CaptureModulePayload": set(),
+               "InterfacePayload": {"getInterfaceStatus"}}
+    from cmpverif.accessors import header_view_record
+    from rules.decoder_rules import _linear as _lin4
+    NS = "ASAM::CMP::"
+    for cls in c03.CLASSES:
+        val = c03.find_method(fb, NS + cls, "isValidPayload")
+        hsz = fb.record(header_view_record(fb, NS + cls))["size"]
+        sizep = val.params[1]["decl"]
+        badv = None
+        for atoms in implied_atoms(val):
+            for a in atoms:
+                nodes = [a[4], a[5]] if a[0] == "cmp" else [a[3]]
+                used = set()
+                for nd in nodes:
+                    ex = facts.expand(val, nd)
+                    used |= {c.split("::")[-1] for c in called_names(ex) if "::Header::" in c}
+                    for x in walk(ex):
+                        if x.get("k") == "subscript" and c03.raw_byte_getter(val, x):
+                            used.add(c03.raw_byte_getter(val, x).split("::")[-1])
+                extra = used - ALLOWED[cls]
+                if extra:
+                    badv = badv or "it accepts a payload only under `%s`, which looks at %s" % ((a[1][:70] + " " + a[2] + " " + a[3][:30]) if a[0] == "cmp" else a[1][:90], sorted(extra))
+                elif not used and a[0] == "cmp" and a[2] in (">=", ">", "<", "<="):
+                    def sy(z):
+                        return "n" if z.get("k") == "ref" and z.get("decl") == sizep else None
+                    l, r = _lin4(val, a[4], sy), _lin4(val, a[5], sy)
+                    if l is not None and r is not None:
+                        d = dict(l)
+                        for k2, v2 in r.items():
+                            d[k2] = d.get(k2, 0) - v2
+                        op = a[2]
+                        if d.get("n", 0) < 0:
+                            d = {k2: -v2 for k2, v2 in d.items()}
+                            op = {"<": ">", "<=": ">=", ">": "<", ">=": "<="}[op]
+                        if d.get("n") == 1 and set(d) <= {"n", 1} and op in (">", ">="):
+                            need = -d.get(1, 0) + (1 if op == ">" else 0)
+                            if need > hsz:
+                                badv = badv or "it requires %d bytes although the %s header has %d: a payload that is just its header (no data) is turned invalid" % (need, cls, hsz)
+        res.check(badv is None, "C04-R3", "invalid-only-for-protocol-reasons:%s" % cls, val.loc, "the validator looks at nothing but the size, %s" % (sorted(ALLOWED[cls]) or "no header field"),
+                  "%s::isValidPayload marks payloads invalid for a reason the protocol does not give: %s" % (cls, badv))
+    rule_reported_length(fb, res)
     # ---- R5 positions
     obs, _ = accessors.analyse(fb, ctx.spec("layout.json"))
     for o in obs:
